@@ -36,9 +36,15 @@ namespace occa {
 
     // Remove ref from device
     if (modeDevice) {
+#ifdef LIBOCCA_OCCA_VERIF
+      verif::yield(verif::ptBeforeBytes);
+#endif
       if (!isWrapped) {
         modeDevice->bytesAllocated -= size;
       }
+#ifdef LIBOCCA_OCCA_VERIF
+      verif::yield(verif::ptAfterBytes);
+#endif
 
       modeDevice->removeMemoryRef(this);
     }
